@@ -338,6 +338,7 @@ class SK(object):
         self.steps = 0
         self.decisions = None       # None: undecidable float comparisons are unsupported; list: replayed / extended fork decisions
         self.trace = []
+        self.construct = False          # a class of the package without a hook is constructed by interpreting its __init__ chain
         self.follow_deepcopy = False    # copy.deepcopy(obj) of a class-keyed object runs the class's own __deepcopy__
         self.generic_eq = 0         # number of ==/!= tests between an abstract float and a number decided by genericity
         self.exact = False          # exact mode: literal initial fills take part in arithmetic as their numbers (symbolic drivers)
@@ -434,6 +435,8 @@ class SK(object):
             if ('method', fi.key) in self.abstracted:
                 return self.abstracted[('method', fi.key)]
             return FnRef(fi, bound=b.obj)
+        if isinstance(b, tuple) and len(b) == 2 and b[0] == 'class' and e.attr == '__name__':
+            return b[1][1]
         if isinstance(b, tuple) and len(b) == 2 and b[0] == 'class' and e.attr == '__new__':
             return Py(lambda sk, node, c, *a, **k: Bag(c[1]) if isinstance(c, tuple) and c and c[0] == 'class' else {}, '__new__')
         if isinstance(b, dict) and e.attr == '__new__':
@@ -755,6 +758,13 @@ class SK(object):
             hook = self.abstracted.get(('class', f[1]))
             if hook is not None:
                 return hook(self, node, *args, **kw)
+            if self.construct:
+                # run the class's own __init__ chain on a fresh attribute bag
+                b = Bag(f[1])
+                init = self.m.lookup(f[1], '__init__', 'methods')
+                if init is not None:
+                    self.call(init, [b] + list(args), kw)
+                return b
             raise Unsupported('construction of %s.%s' % f[1])
         if isinstance(f, tuple) and f and f[0] == 'super':
             return SuperRef(env['self'], env['__cls__'])
@@ -994,6 +1004,8 @@ def _float(sk, n, x):
         return x
     if x is None or isinstance(x, list):
         raise Violation('SK2', 'float(%r)' % (x,), n)
+    if isinstance(x, str):
+        raise Unsupported('float() of a formatted string')
     return float(x)
 
 
